@@ -4,7 +4,9 @@
    Abstract state
      exists          the file is on disk
      file            path -> name -> value id | NoVal | Unk
-     handle          the session handle: NoHandle or its access level
+     handle          handle slot -> NoHandle or its access level.  Several CheckpointFile
+                     objects (HSlots, 1 or 2) can be open on the SAME file at once, each with
+                     its own level (HDF5 shares one file object per process behind them)
      h               history variable: every call with its expected result and the
                      expected content of every (path,name) slot afterwards
    A value id stands for one concrete value of one kind (integer, double, string,
@@ -12,12 +14,19 @@
    spec only needs to know which ids have the same kind (KindOf).
 
    One action per public call of CheckpointFile / CheckpointWriter:
-     Open(l)      CheckpointFile(name, l); an open session handle is closed first
-                  (Reopen).  CREATE truncates, MODIFY creates the file if it is
+     Open(s,l)    CheckpointFile(name, l) into handle slot s; a handle already in s is
+                  closed first (Reopen).  CREATE truncates, MODIFY creates the file if it is
                   missing and keeps it otherwise, READ fails if it is missing.
-     Close        the session handle goes out of scope
-     Write(p,n,v) getWriter(p)[.openChild..](value, n) through the session handle;
-                  with a READ handle getWriter is an error and nothing changes
+                  While ANOTHER slot holds the file open, HDF5's own rules interfere:
+                  H5F_ACC_TRUNC on an open file is refused, RDWR on a file first opened
+                  RDONLY is refused (depends on which handle came first).  The statement
+                  says nothing about that, so for CREATE next to any open handle and for
+                  MODIFY next to a READ handle both outcomes are admitted (OpenOutcomes):
+                  refused -> slot closed, nothing changes; accepted -> as usual.
+     Close(s)     the CheckpointFile in slot s goes out of scope
+     Write(s,p,n,v) getWriter(p)[.openChild..](value, n) through slot s; if s was opened
+                  with READ, getWriter is an error and nothing changes - WHATEVER the other
+                  slot's level is ("a file opened read-only cannot be modified")
      Read(p,n,k)  is not a step of the history: after every step the binding reads
                   EVERY slot with a FRESH CheckpointFile(name, READ) and
                   getReader(p)(target,n); ReadResult below is what it must see.
@@ -35,6 +44,7 @@ CONSTANTS PathSeq,      \* tuple of abstract group paths
           NameSeq,      \* tuple of abstract names
           Values,       \* set of value ids (strings)
           KindOf(_),    \* value id -> kind
+          HSlots,       \* set of handle slots (CheckpointFile objects that can coexist)
           Depth, Emit, CrossKind
 
 VARIABLES exists, file, handle, h
@@ -57,67 +67,78 @@ ReadResult(f, p, n) == f[p][n]
 Obs(f) == [i \in 1..Len(PathSeq) |-> [j \in 1..Len(NameSeq) |-> ReadResult(f, PathSeq[i], NameSeq[j])]]
 
 TypeOK == /\ exists \in BOOLEAN
-          /\ handle \in Levels \cup {NoHandle}
+          /\ handle \in [HSlots -> Levels \cup {NoHandle}]
           /\ file \in [Paths -> [Names -> Values \cup {NoVal, Unk}]]
 
-Init == exists = FALSE /\ file = Empty /\ handle = NoHandle /\ h = <<>>
+AllClosed == [s \in HSlots |-> NoHandle]
+Init == exists = FALSE /\ file = Empty /\ handle = AllClosed /\ h = <<>>
 
 \* ---- effects on the file (shared with TraceCheckpoint.tla) ---------------------
-OpenOK(l) == (l # "READ") \/ exists
+OthersOpen(s) == {o \in HSlots \ {s} : handle[o] # NoHandle}
+\* admitted results of CheckpointFile(name, l) into slot s (the old occupant of s is gone by then)
+OpenOutcomes(s, l) ==
+  IF l = "READ" THEN (IF exists THEN {"ok"} ELSE {"err"})
+  ELSE IF OthersOpen(s) = {} THEN {"ok"}
+  ELSE IF l = "CREATE" THEN {"ok", "err"}                        \* HDF5 will not truncate an open file
+  ELSE IF \E o \in OthersOpen(s) : handle[o] = "READ" THEN {"ok", "err"}  \* RDWR next to RDONLY
+  ELSE {"ok"}
 OpenTrunc(l) == l = "CREATE" \/ (l = "MODIFY" /\ ~exists)
-OpenEffect(l) ==
-  /\ handle' = IF OpenOK(l) THEN l ELSE NoHandle
-  /\ exists' = (exists \/ l # "READ")
-  /\ file' = IF OpenTrunc(l) THEN Empty ELSE file
-CloseEffect ==
-  /\ handle # NoHandle
-  /\ handle' = NoHandle
+OpenEffect(s, l, r) ==
+  /\ r \in OpenOutcomes(s, l)
+  /\ handle' = [handle EXCEPT ![s] = IF r = "ok" THEN l ELSE NoHandle]
+  /\ exists' = (exists \/ (r = "ok" /\ l # "READ"))
+  /\ file' = IF r = "ok" /\ OpenTrunc(l) THEN Empty ELSE file
+CloseEffect(s) ==
+  /\ handle[s] # NoHandle
+  /\ handle' = [handle EXCEPT ![s] = NoHandle]
   /\ UNCHANGED <<exists, file>>
 SameKindOrFree(p, n, v) == IF file[p][n] = NoVal THEN TRUE
                            ELSE IF file[p][n] = Unk THEN FALSE
                            ELSE KindOf(file[p][n]) = KindOf(v)
-\* getWriter through a READ handle must refuse; nothing changes
-WriteRefused(p, n, v) ==
-  /\ handle = "READ"
+\* getWriter through a slot opened with READ must refuse; nothing changes - independent of the other slots
+WriteRefused(s, p, n, v) ==
+  /\ handle[s] = "READ"
   /\ UNCHANGED <<exists, file, handle>>
-WriteStored(p, n, v) ==
-  /\ handle \in {"MODIFY", "CREATE"}
+WriteStored(s, p, n, v) ==
+  /\ handle[s] \in {"MODIFY", "CREATE"}
   /\ SameKindOrFree(p, n, v)
   /\ file' = [file EXCEPT ![p][n] = v]
   /\ UNCHANGED <<exists, handle>>
 \* rewriting with another kind: stored, or refused with the slot left unspecified
-WriteLoose(p, n, v, r) ==
-  /\ handle \in {"MODIFY", "CREATE"}
+WriteLoose(s, p, n, v, r) ==
+  /\ handle[s] \in {"MODIFY", "CREATE"}
   /\ CrossKind /\ ~SameKindOrFree(p, n, v)
   /\ file' = [file EXCEPT ![p][n] = IF r = "ok" THEN v ELSE Unk]
   /\ UNCHANGED <<exists, handle>>
 
 \* ---- the calls, recorded in the history ---------------------------------------
-Open(l) ==
-  /\ OpenEffect(l)
-  /\ h' = Append(h, [a |-> "open", l |-> l, res |-> IF OpenOK(l) THEN "ok" ELSE "err",
-                     trunc |-> OpenTrunc(l), obs |-> Obs(file')])
+\* hs = the handle slots after the call (the binding uses it to name the situation in its keys)
+Open(s, l) ==
+  \E r \in OpenOutcomes(s, l) :
+    /\ OpenEffect(s, l, r)
+    /\ h' = Append(h, [a |-> "open", s |-> s, l |-> l, res |-> r, adm |-> OpenOutcomes(s, l) = {"ok", "err"},
+                       trunc |-> (r = "ok" /\ OpenTrunc(l)), hs |-> handle', obs |-> Obs(file')])
 
-Close ==
-  /\ CloseEffect
-  /\ h' = Append(h, [a |-> "close", res |-> "ok", obs |-> Obs(file)])
+Close(s) ==
+  /\ CloseEffect(s)
+  /\ h' = Append(h, [a |-> "close", s |-> s, res |-> "ok", hs |-> handle', obs |-> Obs(file)])
 
-Write(p, n, v) ==
-  \/ /\ WriteRefused(p, n, v)
-     /\ h' = Append(h, [a |-> "write", p |-> p, n |-> n, v |-> v, res |-> "err",
-                        loose |-> FALSE, ro |-> TRUE, obs |-> Obs(file)])
-  \/ /\ WriteStored(p, n, v)
-     /\ h' = Append(h, [a |-> "write", p |-> p, n |-> n, v |-> v, res |-> "ok",
-                        loose |-> FALSE, ro |-> FALSE, obs |-> Obs(file')])
+Write(s, p, n, v) ==
+  \/ /\ WriteRefused(s, p, n, v)
+     /\ h' = Append(h, [a |-> "write", s |-> s, p |-> p, n |-> n, v |-> v, res |-> "err",
+                        loose |-> FALSE, ro |-> TRUE, hs |-> handle, obs |-> Obs(file)])
+  \/ /\ WriteStored(s, p, n, v)
+     /\ h' = Append(h, [a |-> "write", s |-> s, p |-> p, n |-> n, v |-> v, res |-> "ok",
+                        loose |-> FALSE, ro |-> FALSE, hs |-> handle, obs |-> Obs(file')])
   \/ \E r \in {"ok", "err"} :
-        /\ WriteLoose(p, n, v, r)
-        /\ h' = Append(h, [a |-> "write", p |-> p, n |-> n, v |-> v, res |-> r,
-                           loose |-> TRUE, ro |-> FALSE, obs |-> Obs(file')])
+        /\ WriteLoose(s, p, n, v, r)
+        /\ h' = Append(h, [a |-> "write", s |-> s, p |-> p, n |-> n, v |-> v, res |-> r,
+                           loose |-> TRUE, ro |-> FALSE, hs |-> handle, obs |-> Obs(file')])
 
 Next == /\ Len(h) < Depth
-        /\ \/ \E l \in Levels : Open(l)
-           \/ Close
-           \/ \E p \in Paths, n \in Names, v \in Values : Write(p, n, v)
+        /\ \/ \E s \in HSlots, l \in Levels : Open(s, l)
+           \/ \E s \in HSlots : Close(s)
+           \/ \E s \in HSlots, p \in Paths, n \in Names, v \in Values : Write(s, p, n, v)
 Spec == Init /\ [][Next]_vars
 
 \* ---- the property, stated over the history -----------------------------------
@@ -136,9 +157,17 @@ ReadAfterWrite ==
      ELSE LET s == h[LastStore(p, n)] IN
           ReadResult(file, p, n) = IF s.res = "ok" THEN s.v ELSE Unk
 \* a file that does not exist has no content and cannot be open
-MissingFile == ~exists => (file = Empty /\ handle = NoHandle)
-\* a READ session never changes anything (getWriter is an error)
-ReadOnlyUnchanged == [][handle = "READ" /\ handle' = "READ" => file' = file /\ exists' = exists]_vars
+MissingFile == ~exists => (file = Empty /\ handle = AllClosed)
+\* a file opened read-only cannot be modified: a write through a slot opened with READ is an error and
+\* leaves everything as it was, whatever level the other slots have
+Last == h'[Len(h')]
+ReadOnlyUnchanged ==
+  [][(Len(h') > Len(h) /\ Last.a = "write" /\ handle[Last.s] = "READ")
+       => (Last.res = "err" /\ file' = file /\ exists' = exists /\ handle' = handle)]_vars
+\* while every open slot is READ (or none is open) only a truncating/creating open changes the file
+OnlyWritersChange ==
+  [][(file' # file) => \/ (Last.a = "open" /\ Last.trunc)
+                       \/ (Last.a = "write" /\ handle[Last.s] \in {"MODIFY", "CREATE"})]_vars
 \* a write touches exactly one slot: sibling names and sibling/parent/child groups undisturbed
 SiblingsUndisturbed ==
   [][Len(h') > Len(h) /\ h'[Len(h')].a = "write" =>
